@@ -9,6 +9,15 @@ the code inside the subset changes the generated definition and breaks that proo
 change is an equivalent rewrite the proof script can see through); a change that leaves the subset makes the
 function untranslatable, which is recorded (`status.json`) and leaves the correspondence check as the only tie.
 
+Names.  The generated definition does not depend on the names of locals: state-record fields are `v0, v1, …` in the
+order of the first binding of the local in the function body (comprehension accumulators included), loop variables
+`x1, x2, …` in the order of the loops, match binders `b1, …`, temporaries `t1, …`; a local that is just another name of
+an input path (`rows = meta_df.to_dicts()`, configured by the path, not by the name) is replaced by the input.
+Parameters keep the names of the `TARGETS` configuration.  The source text and the original names go to the side file
+`Generated/Py<Name>.source.txt`, never into the `.lean` file — so a pure renaming (and anything `ast` does not see:
+comments, blank lines, parenthesisation; `x += e` is `x = x + e`) leaves `Py<Name>.lean` byte-identical and nothing is
+rebuilt.  Bridge proofs refer to locals as `s.v0`, …; the side file says which is which.
+
 Subset (everything else → `Untranslatable`):
   statements   x = e | x += e | x -= e | if/elif/else | for v in e | for i, v in enumerate(e) | continue (last
                statement of an `if` body directly inside a loop body) | return e (function level; a branch all of whose
@@ -144,9 +153,9 @@ TARGETS = [
         # source expressions (ast.unparse form) that denote inputs
         env={"self.pagination.nrow": ("nrow", "Int"), "meta_df.height": ("(Int.ofNat rows.length)", "Int"),
              "meta_df.to_dicts()": ("rows", "List Row")},
-        alias={"rows": "rows"},                 # `rows = meta_df.to_dicts()` binds a name to an input
+        alias={"meta_df.to_dicts()"},           # `rows = meta_df.to_dicts()` binds a local name to an input
         outputs={"page": "Int"},                # row["page"] = e  → appended to the output column `page`
-        returns={"meta_df": "([] : List Int)", "pl.DataFrame(rows)": "s.out_page"},
+        returns={"meta_df": "([] : List Int)", "pl.DataFrame(meta_df.to_dicts())": "s.out_page"},
         ret_type="List Int",
     ),
     dict(
@@ -207,15 +216,18 @@ DEFAULT = {"Int": "0", "Bool": "false", "Str": "[]", "List Int": "[]", "Char": "
 
 
 class Fn:
-    def __init__(self, cfg, node: ast.FunctionDef):
+    def __init__(self, cfg, node: ast.FunctionDef, seed_vars=None):
         self.cfg = cfg
         self.node = node
-        self.vars: dict[str, str] = {}           # local name → type (state record fields)
+        # local name → type (state record fields).  `seed_vars`: the types found by a first pass, so that a variable
+        # that holds `None` on one path and a `T` on another is an `Option T` from its first assignment on
+        self.vars: dict[str, str] = {}
         self.bound: dict[str, tuple[str, str]] = {}   # loop variables / aliases → (lean term, type)
         self.params = dict(cfg["params"])
         self.fresh = 0
         self.loops: list[str] = []               # emitted loop-body definitions, innermost first
         self.loopvars: list[tuple[str, str]] = []     # enclosing loop variables (lean name, lean type)
+        self.alias_src: dict[str, ast.AST] = {}      # local bound to an input path → the path's expression
         self.narrow: dict[str, tuple[str, str]] = {}  # source path → (lean term, type) known on the current path
         # `raises=True`: the function is translated into the exception monad `Except Generated.Py.Exc`; an operation
         # that may raise is bound to a temporary (`let tN ← …`) in evaluation order before the statement it occurs in
@@ -225,6 +237,9 @@ class Fn:
         self.ntmp = 0
         for out, ty in cfg["outputs"].items():
             self.vars["out_" + out] = f"List {ty}"
+        for _path, (out, kt, vt) in (cfg.get("dict_outputs") or {}).items():
+            self.vars["out_" + out] = f"List ({lean_type(kt)} × {lean_type(vt)})"
+        self.vars.update(seed_vars or {})
 
     # ---- expressions: returns (lean, type)
     def expr(self, e, defined) -> tuple[str, str]:
@@ -252,7 +267,7 @@ class Fn:
             if e.id in self.vars:
                 if e.id not in defined:
                     raise Untranslatable(f"variable {e.id} may be read before it is assigned")
-                return f"s.{e.id}", self.vars[e.id]
+                return f"s.{self.fld(e.id)}", self.vars[e.id]
             if e.id in self.params:
                 return e.id, self.params[e.id]
             raise Untranslatable(f"unknown name {e.id}")
@@ -296,12 +311,12 @@ class Fn:
         if isinstance(e, ast.BoolOp):
             # value context: `a and b` / `a or b` return one of their operands, so they are only accepted when every
             # operand is a Bool (then the value is the conjunction / disjunction).  Condition context: `cond`.
-            parts = [self.expr(e.values[0], defined)] + \
-                    [self.guarded(lambda v=v: self.expr(v, defined), src) for v in e.values[1:]]
-            if any(t != "Bool" for _, t in parts):
-                raise Untranslatable(f"and/or on non-boolean operands in value context: {src}")
-            op = " && " if isinstance(e.op, ast.And) else " || "
-            return "(" + op.join(p for p, _ in parts) + ")", "Bool"
+            plain = self.plain_boolop(e, defined)
+            if plain is not None:
+                return plain, "Bool"
+            # `a and b` / `a or b` over other values return one of the operands; only `bool(result)` =
+            # `bool(a) and/or bool(b)` is kept, as a value of the type Truthy, which nothing but a condition accepts
+            return self.cond(e, defined), "Truthy"
         if isinstance(e, ast.UnaryOp) and isinstance(e.op, ast.Not):
             return f"(!{self.cond(e.operand, defined)})", "Bool"
         if isinstance(e, ast.UnaryOp) and isinstance(e.op, ast.USub):
@@ -332,6 +347,10 @@ class Fn:
             if ta not in ("Int", "Rat") and type(e.ops[0]) not in (ast.Eq, ast.NotEq):
                 raise Untranslatable(f"ordering on {ta} in {src}")
             return f"(decide ({a} {ops[type(e.ops[0])]} {b}))", "Bool"
+        if isinstance(e, ast.IfExp) and isinstance(e.test, ast.Call) and isinstance(e.test.func, ast.Name) and \
+                e.test.func.id == "isinstance":
+            # decided by the static type: only the live alternative is translated
+            return self.expr(e.body if self.static_isinstance(e.test, defined) else e.orelse, defined)
         if isinstance(e, ast.IfExp):
             c, tc = self.cond(e.test, defined), "Bool"
             a, ta = self.guarded(lambda: self.expr(e.body, defined), src)
@@ -377,6 +396,39 @@ class Fn:
                 a, ta = self.expr(e.args[0], defined)
                 if ta == "Str" or t_arg(ta, "List") is not None:
                     return f"(Int.ofNat {a}.length)", "Int"
+            if isinstance(f, ast.Name) and f.id == "bool" and len(e.args) == 1 and not e.keywords:
+                return self.cond(e.args[0], defined), "Bool"
+            if isinstance(f, ast.Name) and f.id == "getattr" and len(e.args) == 3 and not e.keywords and \
+                    isinstance(e.args[1], ast.Constant) and isinstance(e.args[1].value, str):
+                # getattr(x, "f", d): the field when x is an object of a configured class that declares f (checked
+                # against the class, `classes=`), d when x is None (NoneType has no such attribute)
+                a, ta = self.expr(e.args[0], defined)
+                d, td = self.guarded(lambda: self.expr(e.args[2], defined), src)
+                rec = t_arg(ta, "Option") or ta
+                fields = dict(self.cfg["records"].get(rec, []))
+                name = e.args[1].value
+                if name in fields and fields[name] == td:
+                    if rec == ta:
+                        return f"{a}.{name}", td
+                    v = self.binder()
+                    return f"(match {a} with | none => {d} | some {v} => {v}.{name})", td
+                raise Untranslatable(f"{src}: {ta} has no configured field {name} of type {td}")
+            if src_call := (self.cfg.get("calls") or {}).get(ast.unparse(f)):
+                lean_fn, arg_specs, rty = src_call
+                if len(arg_specs) != len(e.args) or e.keywords:
+                    raise Untranslatable(f"call {src}: arguments changed")
+                out = []
+                for a_ast, spec in zip(e.args, arg_specs):
+                    if isinstance(spec, tuple):             # an argument passed on as these terms (e.g. `page`)
+                        if ast.unparse(a_ast) != spec[0]:
+                            raise Untranslatable(f"call {src}: argument {ast.unparse(a_ast)}, expected {spec[0]}")
+                        out += list(spec[1])
+                    else:
+                        a, ta = self.expr(a_ast, defined)
+                        if ta != spec:
+                            raise Untranslatable(f"call {src}: argument of type {ta}, expected {spec}")
+                        out.append(a)
+                return f"({lean_fn} " + " ".join(out) + ")", rty
             if isinstance(f, ast.Name) and f.id == "sum" and len(e.args) == 1 and not e.keywords:
                 a, ta = self.expr(e.args[0], defined)
                 if ta in ("List Rat", "List Int"):       # 0 + x0 + x1 + …, left to right
@@ -447,8 +499,10 @@ class Fn:
         """`bool(v)` for a value of the given static type: a bool is itself, an int is `≠ 0`, a str / list is
         `len > 0`, `None` is false, an instance of a configured record class (no `__bool__`, no `__len__`: checked
         against the imported class) is true"""
-        if ty == "Bool":
+        if ty in ("Bool", "Truthy"):
             return term
+        if ty == "None":
+            return "false"
         if ty == "Int":
             return f"(decide ({term} ≠ (0 : Int)))"
         if ty == "Str" or t_arg(ty, "List") is not None:
@@ -463,7 +517,15 @@ class Fn:
 
     def binder(self) -> str:
         self.nbind = getattr(self, "nbind", 0) + 1
-        return f"v{self.nbind}"
+        return f"b{self.nbind}"
+
+    def fld(self, name: str) -> str:
+        """the state-record field of a local variable: locals are alpha-renamed to `v0, v1, …` in the order of their
+        first binding in the function body, so that renaming a local changes nothing in the generated definition
+        (output columns keep their configured names; the original names are listed in `Py<Name>.source.txt`)"""
+        if name.startswith("out_"):
+            return name
+        return "v" + str([k for k in self.vars if not k.startswith("out_")].index(name))
 
     def path_key(self, e):
         """`ast.unparse(e)` when `e` is a *path*: an expression whose value cannot change while the function runs
@@ -493,15 +555,29 @@ class Fn:
             return None
         return term, inner, key, not only_none
 
+    def plain_boolop(self, e: ast.BoolOp, defined):
+        """the conjunction / disjunction when every operand is a Bool (None otherwise)"""
+        n = len(self.pending)
+        try:
+            parts = [self.expr(e.values[0], defined)] + \
+                    [self.guarded(lambda v=v: self.expr(v, defined), ast.unparse(e)) for v in e.values[1:]]
+        except Untranslatable:
+            del self.pending[n:]
+            return None
+        if any(t != "Bool" for _, t in parts):
+            del self.pending[n:]
+            return None
+        op = " && " if isinstance(e.op, ast.And) else " || "
+        return "(" + op.join(p for p, _ in parts) + ")"
+
     def cond(self, e, defined) -> str:
         """a Bool term equal to `bool(e)`.  `a and b`: `bool(a and b) = bool(a) && bool(b)`, `b` is evaluated only
         when `a` is truthy, and inside `b` a path that `a` has shown to be not-None has its narrowed type."""
         if isinstance(e, ast.BoolOp) and isinstance(e.op, ast.And):
             if not any(self.option_test(v, defined) for v in e.values[:-1]):
-                try:
-                    return self.expr(e, defined)[0]      # all operands Bool: the plain conjunction
-                except Untranslatable:
-                    pass
+                plain = self.plain_boolop(e, defined)     # all operands Bool: the plain conjunction
+                if plain is not None:
+                    return plain
             return self.cond_and(list(e.values), defined)
         if isinstance(e, ast.BoolOp) and isinstance(e.op, ast.Or):
             return "(" + " || ".join([self.cond(e.values[0], defined)] +
@@ -602,11 +678,21 @@ class Fn:
     # ---- statements.  `block` returns a Lean term of the function's *state* type with `s` free;
     # `defined` is the set of variables assigned on every path so far.  `k` is the continuation (python statements
     # that follow); `final` builds the term that closes the block (returns `s` inside loops).
-    def declare(self, name, ty):
+    def declare(self, name, ty, v=None):
+        """record the type of a local; a variable assigned `None` and values of type `T` is an `Option T`.
+        → the value to store (wrapped in `some` where needed)"""
         old = self.vars.get(name)
-        if old is not None and old != ty:
-            raise Untranslatable(f"variable {name} used at types {old} and {ty}")
-        self.vars[name] = ty
+        if old is None or old == ty:
+            self.vars[name] = ty
+            return v
+        if old == "None" and ty != "None":
+            self.vars[name] = ty if t_arg(ty, "Option") is not None else t_app("Option", ty)
+            return v if t_arg(ty, "Option") is not None else f"(some {v})"
+        if t_arg(old, "Option") is not None and ty == "None":
+            return "none"
+        if t_arg(old, "Option") == ty:
+            return f"(some {v})"
+        raise Untranslatable(f"variable {name} used at types {old} and {ty}")
 
     def block(self, stmts, defined: set, in_loop: bool, ind: str):
         """→ (term, defined_after, kind) with kind ∈ {fall, return}; at function level a `return` closes the term with
@@ -626,7 +712,7 @@ class Fn:
                     len(st.targets) == 1 and isinstance(st.targets[0], ast.Name)):
                 raise Untranslatable(f"comprehension {ast.unparse(lc)}")
             self.fresh_lc = getattr(self, "fresh_lc", 0) + 1
-            name = f"lc{self.fresh_lc}" if isinstance(st, ast.Return) else st.targets[0].id
+            name = f"<comprehension {self.fresh_lc}>" if isinstance(st, ast.Return) else st.targets[0].id
             pre, val = [], lc.elt
             if isinstance(val, ast.NamedExpr):
                 pre, val = [ast.Assign(targets=[val.target], value=val.value, lineno=st.lineno)], val.target
@@ -655,15 +741,18 @@ class Fn:
                 raise Untranslatable(f"append of a {ty} to {name} : {self.vars[name]}")
             pre = self.flush(ind)
             term, d2, kind = self.block(rest, defined, in_loop, ind)
-            return f"{pre}{ind}let s := {{ s with {name} := s.{name} ++ [{v}] }}\n{term}", d2, kind
+            return (f"{pre}{ind}let s := {{ s with {self.fld(name)} := s.{self.fld(name)} ++ [{v}] }}\n{term}",
+                    d2, kind)
         if isinstance(st, ast.Assign) and len(st.targets) == 1:
             tgt = st.targets[0]
             src = ast.unparse(st.value)
             if isinstance(tgt, ast.Name) and isinstance(st.value, ast.Dict):
                 self.bound["dict:" + tgt.id] = st.value
                 return self.block(rest, defined, in_loop, ind)
-            if isinstance(tgt, ast.Name) and tgt.id in self.cfg["alias"] and src in self.cfg["env"]:
+            if isinstance(tgt, ast.Name) and src in self.cfg["alias"] and src in self.cfg["env"]:
+                # `x = <input path>`: x is another name of the input (whatever x is called)
                 self.bound[tgt.id] = self.cfg["env"][src]
+                self.alias_src[tgt.id] = st.value
                 return self.block(rest, defined, in_loop, ind)
             if isinstance(tgt, ast.Name):
                 if tgt.id in self.bound or (tgt.id in self.params and tgt.id not in self.vars):
@@ -675,10 +764,10 @@ class Fn:
                     self.vars[tgt.id] = ty
                 else:
                     v, ty = self.expr(st.value, defined)
-                    self.declare(tgt.id, ty)
+                    v = self.declare(tgt.id, ty, v)
                 pre = self.flush(ind)
                 term, d2, kind = self.block(rest, defined | {tgt.id}, in_loop, ind)
-                return f"{pre}{ind}let s := {{ s with {tgt.id} := {v} }}\n{term}", d2, kind
+                return f"{pre}{ind}let s := {{ s with {self.fld(tgt.id)} := {v} }}\n{term}", d2, kind
             if isinstance(tgt, ast.Subscript) and isinstance(tgt.slice, ast.Constant) and \
                     tgt.slice.value in self.cfg["outputs"] and in_loop:
                 v, ty = self.expr(st.value, defined)
@@ -688,6 +777,17 @@ class Fn:
                 pre = self.flush(ind)
                 term, d2, kind = self.block(rest, defined, in_loop, ind)
                 return f"{pre}{ind}let s := {{ s with {col} := s.{col} ++ [{v}] }}\n{term}", d2, kind
+            if isinstance(tgt, ast.Subscript) and ast.unparse(tgt.value) in (self.cfg.get("dict_outputs") or {}):
+                # `P[k] = v` on a configured dict of the caller's object: the write is recorded, in order
+                out, kt, vt = self.cfg["dict_outputs"][ast.unparse(tgt.value)]
+                k, tk = self.expr(tgt.slice, defined)
+                v, tv = self.expr(st.value, defined)
+                if (tk, tv) != (kt, vt):
+                    raise Untranslatable(f"write {ast.unparse(st)} at types {tk}, {tv}")
+                col = "out_" + out
+                pre = self.flush(ind)
+                term, d2, kind = self.block(rest, defined, in_loop, ind)
+                return f"{pre}{ind}let s := {{ s with {col} := s.{col} ++ [({k}, {v})] }}\n{term}", d2, kind
             raise Untranslatable(f"assignment {ast.unparse(st)}")
         if isinstance(st, ast.AugAssign) and isinstance(st.target, ast.Name) and isinstance(st.op, (ast.Add, ast.Sub)):
             new = ast.Assign(targets=[st.target], value=ast.BinOp(left=ast.Name(id=st.target.id, ctx=ast.Load()),
@@ -766,7 +866,7 @@ class Fn:
             params = self.tparams() + " ".join(f"({p} : {lean_type(t)})" for p, t in self.cfg["params"])
             outer_decl = " ".join(f"({a} : {t})" for a, t in outer)
             sig = f"Except Exc {self.st_type()} := do" if self.M else f"{self.st_type()} :="
-            self.loops.append(f"/-- body of loop {n}: `{ast.unparse(st).splitlines()[0]}` -/\n"
+            self.loops.append(f"/-- body of loop {n} -/\n"
                               f"def loop{n} {params} {outer_decl} (s : {self.st_type()}) ({x} : {xty}) : {sig}\n{body}\n")
             args = " ".join([p for p, _ in self.cfg["params"]] + [a for a, _ in outer])
             # variables first assigned inside the loop are not definitely assigned after it
@@ -777,7 +877,7 @@ class Fn:
         if isinstance(st, ast.Return) and not in_loop:
             if rest:
                 raise Untranslatable("statements after return")
-            src = ast.unparse(st.value) if st.value is not None else "None"
+            src = ast.unparse(self.unalias(st.value)) if st.value is not None else "None"
             pure = "pure " if self.M else ""
             if src in self.cfg["returns"]:
                 return f"{ind}{pure}{self.cfg['returns'][src]}", defined, "return"
@@ -815,6 +915,17 @@ class Fn:
             return (f"{ind}(match (show Except Exc {t_paren(rty)} from do\n{body}) with\n" + "\n".join(arms) +
                     f"\n{ind}| r => r)"), d2, "return"
         raise Untranslatable(f"statement {ast.unparse(st).splitlines()[0]}")
+
+    def unalias(self, e):
+        """`e` with every local that is just another name of an input path replaced by that path"""
+        al = self.alias_src
+
+        class R(ast.NodeTransformer):
+            def visit_Name(self, n):
+                return al.get(n.id, n)
+
+        import copy
+        return R().visit(copy.deepcopy(e))
 
     def raised_class(self, st: ast.Raise, defined, exc_name=None) -> str:
         """`raise F(args) [from e]` → F; the arguments (a message) are not modelled but must be harmless: constants
@@ -902,7 +1013,7 @@ def lean_type(t: str) -> str:
         a = t_arg(t, ctor)
         if a is not None:
             return t_app(ctor, lean_type(a))
-    return {"Str": "List Nat", "Char": "Nat"}.get(t, t)
+    return {"Str": "List Nat", "Char": "Nat", "Truthy": "Bool", "None": "Option Unit"}.get(t, t)
 
 
 def find_function(cfg) -> ast.FunctionDef:
@@ -946,6 +1057,9 @@ def check_classes(cfg):
             raise Untranslatable(f"class {mod}.{cls} defines its own truthiness")
 
 
+SIDE: dict[str, str] = {}      # name → text of the side file (source and variable names; not read by Lean)
+
+
 def translate(cfg) -> str:
     cfg = dict(cfg, records=dict(cfg["records"]))
     check_classes(cfg)
@@ -956,20 +1070,44 @@ def translate(cfg) -> str:
     want = cfg["skip_params"] + [p for p, _ in cfg["params"] if p in got]
     if sorted(got) != sorted(set(want)) or node.args.vararg or node.args.kwarg or node.args.kwonlyargs:
         raise Untranslatable(f"signature changed: {got}")
+    stmts = list(node.body)
+    shown = node
+    if cfg.get("fragment"):
+        # consecutive top-level statements of the function, from the first one whose source starts with the first
+        # marker to the first one after it whose source starts with the second marker
+        first, last = cfg["fragment"]
+        srcs = [ast.unparse(x) for x in stmts]
+        i = next((k for k, t in enumerate(srcs) if t.startswith(first)), None)
+        j = next((k for k, t in enumerate(srcs) if i is not None and k >= i and t.startswith(last)), None)
+        if i is None or j is None:
+            raise Untranslatable(f"fragment markers {first!r} … {last!r} not found")
+        stmts = stmts[i:j + 1]
+        shown = ast.Module(body=stmts, type_ignores=[])
     fn = Fn(cfg, node)
-    body, _, kind = fn.block(list(node.body), set(), False, "  ")
+    fn.block(list(stmts), set(), False, "  ")
+    seed = {k: v for k, v in fn.vars.items() if not k.startswith("out_")}
+    fn = Fn(cfg, node, seed_vars=seed)            # second pass with the variable types of the first
+    body, _, kind = fn.block(list(stmts), set(), False, "    " if cfg.get("implicit_return") else "  ")
+    if {k: v for k, v in fn.vars.items() if not k.startswith("out_")} != seed:
+        raise Untranslatable("the types of the local variables do not settle")
     if kind != "return":
-        raise Untranslatable("a path reaches the end of the function without a return")
+        if not cfg.get("implicit_return"):
+            raise Untranslatable("a path reaches the end of the function without a return")
+        # the function (fragment) ends by falling off its end: its result is the configured view of the final state
+        arrow = "←" if fn.M else ":="
+        final = ("pure " if fn.M else "") + cfg["implicit_return"]
+        body = f"  let s {arrow}{fn.DO or ''}\n{body}\n  {final}"
+    elif cfg.get("implicit_return"):
+        body = textwrap.indent(textwrap.dedent(body), "  ")
     lines = [f"import Generated.PyPrelude",
              "/-! GENERATED by harness/pytranslate.py from",
              f"`/repo/src/rtflite/{cfg['file']}` — `{cfg['cls']}.{cfg['func']}`.  Do not edit.",
              "",
              cfg["doc"],
              "",
-             "Source translated:",
-             "```python",
-             textwrap.indent(ast.unparse(node), "  "),
-             "```",
+             "Locals are alpha-renamed to `v0, v1, …` in the order of their first binding, loop variables to `x1, …`,",
+             f"so this file does not depend on their names; the source translated and the original names are listed in",
+             f"`Generated/Py{cfg['name']}.source.txt`.",
              "-/",
              "set_option linter.unusedVariables false",
              f"namespace Generated.Py.{cfg['name']}", ""]
@@ -984,7 +1122,7 @@ def translate(cfg) -> str:
         lines.append("  unit : Unit := ()")
     for v, t in fn.vars.items():
         lt = lean_type(t)
-        lines.append(f"  {v} : {lt} := {DEFAULT.get(t, '[]')}")
+        lines.append(f"  {fn.fld(v)} : {lt} := {DEFAULT.get(t, 'none' if lt.startswith('Option') else '[]')}")
     lines += ["  deriving Inhabited" if tp else "  deriving Repr, Inhabited", ""]
     lines += fn.loops
     for v, t in fn.vars.items():
@@ -998,6 +1136,9 @@ def translate(cfg) -> str:
     lines.append(f"  let s : {fn.st_type()} := {{}}")
     lines.append(body)
     lines += ["", f"end Generated.Py.{cfg['name']}", ""]
+    names = "\n".join(f"  {fn.fld(v)} = {v} : {t}" for v, t in fn.vars.items() if not v.startswith("out_"))
+    SIDE[cfg["name"]] = (f"{cfg['cls']}.{cfg['func']} ({cfg['file']}) as translated into Generated/Py{cfg['name']}.lean\n\n"
+                         f"locals:\n{names or '  (none)'}\n\nsource:\n{textwrap.indent(ast.unparse(shown), '  ')}\n")
     return "\n".join(lines)
 
 
@@ -1056,6 +1197,10 @@ def generate(out_dir: Path = OUT) -> dict:
             status[cfg["name"]] = dict(ok=False, func=f"{cfg['cls']}.{cfg['func']}", file=cfg["file"], why=str(e))
         if not path.exists() or path.read_text() != text:
             path.write_text(text)
+        side = out_dir / f"Py{cfg['name']}.source.txt"
+        stext = SIDE.pop(cfg["name"], f"{cfg['cls']}.{cfg['func']}: not translated\n")
+        if not side.exists() or side.read_text() != stext:
+            side.write_text(stext)
     (out_dir / "py_status.json").write_text(json.dumps(status, indent=1))
     return status
 
